@@ -611,3 +611,18 @@ def split_span(s):
     """'/path/file.rs:12:8' -> (file, 12, 8)"""
     f, l, c = s.rsplit(":", 2)
     return f, int(l), int(c)
+
+
+def is_panic_node(n):
+    """explicit panic in either view: panic!/unreachable!/todo!/unimplemented!/assert! macros or their expansions."""
+    if n.get("k") == "mac" and n["name"] in ("panic", "unreachable", "todo", "unimplemented", "assert", "assert_eq", "assert_ne"):
+        return n["name"]
+    if n.get("k") == "call":
+        p = call_path(n) or ""
+        if "panicking" in p or p.endswith("begin_panic") or "rt::panic" in p:
+            if "unreachable" in p or "internal error: entered unreachable code" in expr_str(n):
+                return "unreachable"
+            if "not yet implemented" in expr_str(n) or "not implemented" in expr_str(n):
+                return "todo"
+            return "panic"
+    return None
